@@ -266,7 +266,11 @@ def run(res, tier):
                 idx.add(i_['v'])
             elif i_['k'] == 'DeclRefExpr':
                 for l_ in f.walk():
-                    if l_['k'] == 'ForStmt' and l_.role('cond') is not None and any(x.get('v') == nlists and x.get('n') == 'NUM_LINKED_LISTS' or x.get('v') == nlists for x in l_.role('cond').walk()):
+                    if l_['k'] != 'ForStmt':
+                        continue
+                    # ascending `i < NUM_LINKED_LISTS` from 0, or descending from NUM_LINKED_LISTS-1 down to 0: the loop header (init or test) names the list count
+                    hdr = [y for part in (l_.role('init'), l_.role('cond')) if part is not None for y in part.walk()]
+                    if any(y.get('n') == 'NUM_LINKED_LISTS' or (y['k'] == 'DeclRefExpr' and y.get('v') == nlists) for y in hdr) and any(y.get('v') == 0 for y in hdr):
                         loops_all = True
     okc = loops_all or (nlists is not None and idx >= set(range(nlists)))
     res.ob('LINKS', f.where(), 'ClearPulseChildren empties all %s child lists' % nlists, okc, how='loop over all lists' if loops_all else 'indices %s' % sorted(idx), function=f.q, key='LINKS|%s|all-lists' % f.q,
